@@ -209,6 +209,10 @@ def column_map_protocol(pid='C17'):
         for n in ast.walk(fn):
             if isinstance(n, ast.Attribute) and n.attr == '_column_map' and isinstance(n.ctx, ast.Load):
                 reads.append(n)
+        # uses that go through a refresher helper are fresh by construction: one obligation per call
+        for n in ast.walk(fn):
+            if isinstance(n, ast.Call) and isinstance(n.func, ast.Attribute) and n.func.attr in refreshers:
+                obs.append(_ob(f'{pid}:{q}:map-fresh', 'discharged', q, kind='protocol'))
         if not reads:
             continue
         for r in reads:
@@ -227,6 +231,8 @@ def column_map_protocol(pid='C17'):
                 obs.append(_ob(site, 'refuted', q,
                                'accessor map read without refreshing it for renamed (wild) columns: a rename through a live column view is not seen',
                                f'{fname}:{r.lineno} {owner}._column_map', 'protocol'))
+    if not obs:
+        obs.append(_ob(f'{pid}:table.Table:map-fresh', 'undecided', 'table.Table', 'no accessor-map read site found (vacuity guard)', kind='protocol'))
     return obs
 
 
